@@ -53,6 +53,34 @@ fn check_lun(ctx: &Ctx, t: &LunTable, i: usize, alpha: &[isize], loc: &mut Local
     }
     _ => ctx.violation("memo", l.key(), "cache-free constructor refuses a month that from_ym returned".into(), rp(&l)),
   }
+  // the month's day list carries the month's own label (first and last element), and a second lookup of the month (memo hit)
+  // still reports the same position in the year
+  loc.transitions += 1;
+  match guard(|| {
+    let m = LunarMonth::from_ym(l.y as isize, l.m as isize);
+    let ds = m.get_days();
+    let lab = |d: &tyme4rs::tyme::lunar::LunarDay| {
+      let b = d.get_lunar_month();
+      (b.get_year() as i32, b.get_month_with_leap() as i8, (b.get_first_julian_day().get_day() + 0.5).floor() as i64)
+    };
+    let again = LunarMonth::from_ym(l.y as isize, l.m as isize);
+    (ds.len(), lab(&ds[0]), lab(&ds[ds.len() - 1]), again.get_index_in_year(), again.next(1).get_index_in_year(), again.next(1).get_year())
+  }) {
+    Ok((n, a, b, idx2, nidx, ny)) => {
+      if n != l.days as usize || a != (l.y, l.m, l.jd) || b != (l.y, l.m, l.jd) {
+        ctx.violation("memo", l.key(), format!("get_days() lists {} days whose first / last element belong to month {:?} / {:?} (model: {} days of {} starting JD {})", n, a, b, l.days, l.key(), l.jd), rp(&l));
+      }
+      let want_next = if i + 1 < t.l.len() { Some((t.l[i + 1].idx as usize, t.l[i + 1].y as isize)) } else { None };
+      if idx2 != l.idx as usize || (l.y < 9999 && want_next.is_some() && Some((nidx, ny)) != want_next) {
+        ctx.violation("memo", l.key(), format!("second lookup: index in year {} (model {}), its next(1) is index {} of year {} (model {:?})", idx2, l.idx, nidx, ny, want_next), rp(&l));
+      }
+    }
+    Err(m) => {
+      if l.y < 9999 || l.idx < 11 {
+        ctx.violation("memo", l.key(), format!("get_days / second lookup panics: {}", m), rp(&l));
+      }
+    }
+  }
   // length and abutment
   if l.days != 29 && l.days != 30 {
     ctx.violation("length", l.key(), format!("month has {} days (model: 29 or 30)", l.days), rp(&l));
